@@ -1,0 +1,116 @@
+//! Verification hooks. Only compiled with `--cfg divan_verif`.
+//!
+//! Nothing in here changes a decision of the code under test: the hooks expose
+//! crate-private types to an external harness, let it script the timestamp
+//! counter, and let it replace values that production measures from the real
+//! clock (timer precision, loop overheads, TSC frequency).
+
+#![allow(missing_docs, dead_code, clippy::all)]
+
+pub mod clock;
+pub mod pure;
+
+pub use crate::benchmark::verif_hooks as bench;
+pub use crate::divan::verif_hooks as runner;
+
+/// Accessors for the current thread's allocation tally.
+pub mod alloc {
+    use crate::alloc::{AllocOp, ThreadAllocInfo};
+
+    /// Plain-data copy of `ThreadAllocInfo`.
+    ///
+    /// `tallies` is `(count, size)` in the order grow, shrink, alloc, dealloc.
+    #[derive(Clone, Copy, Debug, Default, PartialEq, Eq)]
+    pub struct TallyView {
+        pub tallies: [(u64, u64); 4],
+        pub current_count: i64,
+        pub max_count: i64,
+        pub current_size: i64,
+        pub max_size: i64,
+    }
+
+    impl TallyView {
+        pub(crate) fn of(info: &ThreadAllocInfo) -> Self {
+            Self {
+                tallies: AllocOp::ALL.map(|op| {
+                    let t = info.tallies.get(op);
+                    (t.count as u64, t.size as u64)
+                }),
+                current_count: info.current_count as i64,
+                max_count: info.max_count as i64,
+                current_size: info.current_size as i64,
+                max_size: info.max_size as i64,
+            }
+        }
+
+        pub(crate) fn to_info(self) -> ThreadAllocInfo {
+            let mut info = ThreadAllocInfo::new();
+            for (i, op) in AllocOp::ALL.into_iter().enumerate() {
+                let t = info.tallies.get_mut(op);
+                t.count = self.tallies[i].0 as _;
+                t.size = self.tallies[i].1 as _;
+            }
+            info.current_count = self.current_count as _;
+            info.max_count = self.max_count as _;
+            info.current_size = self.current_size as _;
+            info.max_size = self.max_size as _;
+            info
+        }
+    }
+
+    /// Initializes (if needed) and returns a copy of the current thread's
+    /// tally, or `None` if the thread-local is gone.
+    pub fn current() -> Option<TallyView> {
+        let info = ThreadAllocInfo::current()?;
+        // SAFETY: Only this thread accesses its tally.
+        Some(TallyView::of(unsafe { info.as_ref() }))
+    }
+
+    /// Returns a copy of the current thread's tally without initializing it.
+    pub fn try_current() -> Option<TallyView> {
+        let info = ThreadAllocInfo::try_current()?;
+        // SAFETY: Only this thread accesses its tally.
+        Some(TallyView::of(unsafe { info.as_ref() }))
+    }
+
+    /// Clears the current thread's tally exactly like the sample loop does.
+    pub fn clear() {
+        if let Some(mut info) = ThreadAllocInfo::current() {
+            // SAFETY: Only this thread accesses its tally.
+            unsafe { info.as_mut() }.clear();
+        }
+    }
+
+    /// Sets the process-wide flag that makes the sample loop ignore tallies.
+    pub fn set_ignore_alloc(ignore: bool) {
+        crate::alloc::IGNORE_ALLOC.set(ignore);
+    }
+}
+
+/// Wrapper exposing the crate-private thread pool.
+pub struct Pool(crate::util::thread::ThreadPool);
+
+impl Pool {
+    pub fn new() -> Self {
+        Self(crate::util::thread::ThreadPool::new())
+    }
+
+    pub fn broadcast<F>(&self, aux_threads: usize, task: F)
+    where
+        F: Sync + Fn(usize),
+    {
+        self.0.broadcast(aux_threads, task)
+    }
+
+    pub fn par_extend<T, F>(
+        &self,
+        vec: &mut Vec<Option<T>>,
+        aux_threads: usize,
+        task: F,
+    ) where
+        F: Sync + Fn(usize) -> T,
+        T: Sync + Send,
+    {
+        self.0.par_extend(vec, aux_threads, task)
+    }
+}
